@@ -74,7 +74,7 @@ def make_packs(cases, macroset=None):
     uid = 1000
     for mode, cs in bymode.items():
         for i in range(0, len(cs), PACK):
-            pk = st.Pack("p_%s_%d.rs" % (mode[0], i // PACK))
+            pk = st.Pack("p_%s_%d.rs" % (mode[0], i // PACK), bom=((i // PACK) % 4 == 1))
             for c in cs[i:i + PACK]:
                 uid += 1
                 pk.add(st.render_case(c, uid, macroset=macroset))
@@ -142,6 +142,11 @@ def c10(tier):
     cases = tlc_cases(v, "intended/StmtLayoutQ.cfg" if tier != "thorough" else "intended/StmtLayoutT.cfg")
     binary = common.build_breadlog()
     n = run_cases(binary, cases, v, {"C10"}, "layout")
+    # the same macro name configured under two modules, and a module path of several segments
+    macros = (("log", "info"), ("tracing", "info"), ("log", "warn"), ("my::logger", "warn"), ("log", "error"))
+    mset = {"info": ["log", "tracing"], "warn": ["log", "my::logger"], "error": "log"}
+    sub = [c for c in cases if c["s"]["layout"] in ("space", "newline") and c["s"]["context"] in ("indent", "return")]
+    run_cases(binary, None, v, {"C10"}, "layout-multimodule", packs=make_packs(sub, macroset=mset), macros=macros)
     v.cov["rule"] = ("every feature record TLC enumerates for the configuration (head x target x key-values x message class x "
                      "trailing arguments x inter-token layout x context before the statement x mode), rendered and packed "
                      "%d statements per file; distinct = feature record" % PACK)
@@ -181,6 +186,14 @@ def c11(tier):
             s2 = dict(c["s"], head="crossmod")
             extra.append(dict(c, s=s2, outcome="none", place="nowhere", ref=-1))
     run_cases(binary, None, v, {"C11"}, "decoy-multimodule", packs=make_packs(cases2 + extra, macroset=mset), macros=macros)
+    # block comments with extra stars around the closing delimiter
+    extra2 = []
+    for c in cases2:
+        if c["s"]["head"] == "blockcomment":
+            for h in ("starcomment", "bannercomment"):
+                extra2.append(dict(c, s=dict(c["s"], head=h)))
+    real = [c for c in cases2 if c["s"]["head"] in ("bare", "qualified")][:200]
+    run_cases(binary, extra2 + real, v, {"C11"}, "decoy-starcomments")
     v.cov["rule"] = ("decoys (comments of three kinds, unconfigured / prefix / suffix / other-module names, no literal, no "
                      "arguments, macro text inside a string literal) enumerated by TLC together with real statements and packed in "
                      "enumeration order, plus files ending in a commented-out statement without trailing newline; distinct = record")
